@@ -21,15 +21,24 @@ class C09(Harness):
     op = 'relations'
     crates = ('control', 'deb822')
     bounds = {'quick': {'free_text_max_chars': 3}, 'thorough': {'free_text_max_chars': 4}}
-    assumptions = ['input = every string of 0..N Unicode scalar values (N per tier), substitution variables allowed and disallowed']
-    def fuel(self, case): return 6000 * (case['n'] + 2)
+    assumptions = ['input = every string of 0..N Unicode scalar values (N per tier), substitution variables allowed and disallowed',
+                   'plus the prefixes "a (>= 1", "a [b", "a <b", "a:b", "${a" followed by every string of 2 characters and optionally the closing bracket (content of an opened group)']
+    def fuel(self, case): return 6000 * (case['n'] + 2 + len(case.get('prefix') or ''))
 
     def cases(self, tier):
         N = self.bounds[tier]['free_text_max_chars']
-        return [{'n': n, 'order': n} for n in range(N + 1)]
+        cs = [{'n': n, 'order': n} for n in range(N + 1)]
+        # a relation followed by an opened group whose content is symbolic: '(' op digit .., '[' .., '<' ..
+        for prefix in ('a (>= 1', 'a [b', 'a <b', 'a:b', '${a'):
+            cs.append({'n': 2, 'prefix': prefix, 'order': N + 1})
+        return cs
 
     def run(self, e, case):
         s = sym_text(e, case['n'])
+        if case.get('prefix'):
+            closer = {'(': 41, '[': 93, '<': 62, '{': 125}.get(next((c for c in case['prefix'] if c in '([<{'), ''), None)
+            tail = [closer] if (closer and e.choose('close', 2)) else []
+            s = Str([ord(c) for c in case['prefix']] + list(s.chars) + tail)
         e.inputs['s'] = s
         checks = []; pred = {}
         for allow in (False, True):
